@@ -39,6 +39,9 @@ func catalogue(w *world, check string) []kase {
 	if w.sc.StartOnly {
 		return startCases(w)
 	}
+	if w.sc.CommittedOnly {
+		return append(committedValueCases(w), equivocatedCommitmentCases(w)...)
+	}
 	if w.sc.StateOnly {
 		cs := stateCases(w, w.spec.IDs[:1])
 		if w.sc.BlameOnly {
@@ -161,7 +164,9 @@ func catalogue(w *world, check string) []kase {
 			}
 		}
 	}
-	out = append(out, specialCases(w, check)...)
+	if len(w.sc.OnlyOps) == 0 && len(w.sc.OnlyPaths) == 0 { // operator- or path-restricted scenario: field operators only
+		out = append(out, specialCases(w, check)...)
+	}
 	if check == "C04" && (vkitThorough() || w.sc.Cost < 2) {
 		out = append(out, stateCases(w, deviators)...)
 	}
